@@ -91,6 +91,8 @@ def run(ctx):
         ctx.add("C16.R4", "adss::recover#verifies-under-default-label", lab == {"adss"},
                 "recover must verify under Strobe::new(\"adss\"); transcript starts with %s" % (Q.show_trace(tr[:1], 3) if tr else None),
                 ctx.fn("adss::recover").loc, sample=Q.show_trace(tr, 3) if tr else None)
+    # share and verify build the same authenticated transcript, including the optional custom transcript T
+    c05.transcript_agreement(ctx, "C16.R2", "C16.R2", strict=False)
     ctx.floor("C16.R2", 6)
     ctx.floor("C16.R4", 2)
 
